@@ -18,6 +18,9 @@ pub enum Choice {
     ClientAnswer { id: String, answer: usize },
     /// the harness performs the next on-disk modification of the scenario
     Disk { index: usize },
+    /// the client sends its next message (scenarios that hold back their last messages: the moment a
+    /// message arrives is the environment's choice, not "everything is already in the channel")
+    ClientMsg { index: usize },
     /// the server's initialisation completes (only in scenarios that keep the initialisation
     /// window open: messages arriving before it are queued by the real server loop)
     InitDone,
@@ -38,6 +41,7 @@ impl Choice {
             Choice::Timer { deadline_ms } => format!("timer@{deadline_ms}"),
             Choice::ClientAnswer { id, answer } => format!("client:{id}#{answer}"),
             Choice::Disk { index } => format!("disk#{index}"),
+            Choice::ClientMsg { index } => format!("client-msg#{index}"),
             Choice::InitDone => "init-done".to_string(),
         }
     }
@@ -298,6 +302,7 @@ impl<'a> Controller<'a> {
         match &ch {
             Choice::ClientAnswer { id, answer } => self.hb.env(mix(vcore::fnv(id.as_bytes()), *answer as u64)),
             Choice::Disk { index } => self.hb.env(mix(0x6469736b, *index as u64)),
+            Choice::ClientMsg { index } => self.hb.env(mix(0x6d7367, *index as u64)),
             Choice::InitDone => self.hb.env(0x696e6974),
             _ => {}
         }
